@@ -2621,10 +2621,12 @@ func (p *Parser) testClause(s *Stmt) {
 		p.followErrExp(tc.Left, dblLeftBrack)
 	}
 	tc.Right = p.pos
+	// Leave the nested state before moving past "]]", as the next token may be
+	// a newline which must read any pending heredoc bodies.
+	p.postNested(old)
 	if _, ok := p.gotRsrv("]]"); !ok {
 		p.matchingErr(tc.Left, dblLeftBrack, dblRightBrack)
 	}
-	p.postNested(old)
 	s.Cmd = tc
 }
 
